@@ -156,6 +156,22 @@ def _seg_find(s, needle):
     return -1
 
 
+def _small_bytes(buf, n):
+    """bytes of a buffer known to be exactly ``n`` (a small concrete number) long: filler runs inside it are expanded
+    (their length is forked into a concrete value), so prefix / suffix tests may touch filler bytes"""
+    if type(buf) is not SymBuf:
+        return bytes(buf)
+    out = b""
+    for s in buf.segs:
+        if _is_fill(s):
+            out = out + FILL_BYTE * _small(s.n, n)
+        elif _is_txt(s):
+            raise HarnessError("prefix / suffix test reaches into a Txt segment")
+        else:
+            out = out + s
+    return out
+
+
 class SymBuf(bytes):
     def __new__(cls, segs=()):
         o = bytes.__new__(cls)
@@ -243,7 +259,7 @@ class SymBuf(bytes):
         if n > self.__len__():
             return False
         head = self[:n]
-        return head.concrete_if_plain() == bytes(prefix)
+        return _small_bytes(head, n) == bytes(prefix)
 
     def endswith(self, suffix, *a):
         if a:
@@ -257,7 +273,7 @@ class SymBuf(bytes):
         if n > total:
             return False
         tail = self[total - n:]
-        return tail.concrete_if_plain() == bytes(suffix)
+        return _small_bytes(tail, n) == bytes(suffix)
 
     def index(self, needle, *a):
         i = self.find(needle, *a)
